@@ -41,7 +41,7 @@ var compileClasses = []struct {
 	class string
 	re    *regexp.Regexp
 }{
-	{"import-error", regexp.MustCompile(`could not import|import cycle|is not in std|no required module|cannot find package|no export data`)},
+	{"import-error", regexp.MustCompile(`could not import|import cycle|is not in std|no required module|cannot find package|cannot find module providing|no export data`)},
 	{"redeclared", regexp.MustCompile(`redeclared in this block`)},
 	{"method-redeclared", regexp.MustCompile(`method .* already declared`)},
 	{"duplicate-method", regexp.MustCompile(`duplicate method`)},
@@ -49,7 +49,7 @@ var compileClasses = []struct {
 	{"duplicate-param", regexp.MustCompile(`duplicate argument`)},
 	{"field-method-clash", regexp.MustCompile(`field and method with the same name`)},
 	{"duplicate-case", regexp.MustCompile(`duplicate case`)},
-	{"not-exported", regexp.MustCompile(`not exported by package`)},
+	{"not-exported", regexp.MustCompile(`not exported by package|cannot refer to unexported`)},
 	{"invalid-map-key", regexp.MustCompile(`invalid map key type`)},
 	{"address-of-constant", regexp.MustCompile(`cannot take address of`)},
 	{"unused-import", regexp.MustCompile(`imported and not used`)},
@@ -84,6 +84,11 @@ func otherClass(msg string) string {
 	return "other:" + strings.Join(ws, "-")
 }
 
+// methods the templates declare without reserving them in the struct's namespace (the known family D18a/X5/X6);
+// a clash with any OTHER method name is a clash with a name the namespace was meant to protect.
+var reMintedMethod = regexp.MustCompile(`^(InitDefault|CountSetFields.*|BLength|FastRead|FastWrite|FastWriteNocopy|FastAppend|Get_FieldMask|Set_FieldMask|Pass_FieldMask|GetOrSetBase.*|GetFieldDescriptor|GetTypeDescriptor)$`)
+var reClashName = regexp.MustCompile(`same name (\S+)`)
+
 func classifyCompile(msgs []string) (string, string) {
 	for _, c := range compileClasses {
 		for _, m := range msgs {
@@ -91,6 +96,11 @@ func classifyCompile(msgs []string) (string, string) {
 				continue
 			}
 			if c.re.MatchString(stripPos(m)) {
+				if c.class == "field-method-clash" {
+					if nm := reClashName.FindStringSubmatch(m); nm != nil && !reMintedMethod.MatchString(nm[1]) {
+						return "managed-member-clash", m
+					}
+				}
 				return c.class, m
 			}
 		}
@@ -145,6 +155,7 @@ func judge(exit int, stderr string, parseErrs, compile []string) finding {
 		}
 		m = regexp.MustCompile(`^\d+:\d+: `).ReplaceAllString(strings.TrimPrefix(m, " "), "")
 		m = regexp.MustCompile(`\(and \d+ more errors?\)`).ReplaceAllString(m, "")
+		m = regexp.MustCompile(`found .*$`).ReplaceAllString(m, "found") // the offending token is program text
 		return finding{Kind: "parse", Class: strings.TrimPrefix(otherClass(m), "other:"), Detail: parseErrs[0]}
 	}
 	if c, d := classifyCompile(compile); c != "" {
